@@ -343,7 +343,14 @@ def decide(prop_id: str, tier: str, seed: int) -> int:
         out_lines.append(f"VIOLATION property={prop_id} replay={path.relative_to(VERIF)}")
         violations += 1
 
-    for r in spec_failures[:3]:
+    unexplained = []
+    for r in spec_failures:
+        kid = matches_known(r["case"], r["fails"])
+        if kid is not None:
+            known_hits[kid] += 1
+        else:
+            unexplained.append(r)
+    for r in unexplained[:3]:
         report_failure(r)
 
     widened = 0
